@@ -205,6 +205,15 @@ def getGroup (db : VDB) (key : Option Key) : List Name → Except GErr (List (Na
       | .error e => .error e
       | .ok m => .ok ((s, l) :: m)
 
+/-- the key under which the value of sub-task `sub` (full task name) appears in the dict built for the group `group`:
+    `name = sub_id[base_len:]` with `base_len = len(task_id) + 1` — the group prefix and the ':' are cut off, whatever
+    the rest of the name contains -/
+def subKey (group sub : List Char) : List Char := sub.drop (group.length + 1)
+
+/-- NOT the code: the key as the last ':'-separated segment (`sub_id.rsplit(':', 1)[-1]`), kept for the
+    counterexample `C10_group_key_rsplit_counterexample` -/
+def subKeyLastSegment (sub : List Char) : List Char := (sub.reverse.takeWhile (· != ':')).reverse
+
 /-- one `getargs` entry `arg: (src, key)`; `subs = some l` when `src` is a group task with sub-tasks `l` -/
 def getArg (db : VDB) (subs : Option (List Name)) (src : Name) (key : Option Key) : Except GErr ArgVal :=
   match subs with
